@@ -75,4 +75,20 @@ def fsStopCounterOnCopy (s : FStore) (inf : Nat) (idx : Key) : FStore :=
   | none => s
   | some f => if f.regs.contains inf then kdel FEntry.idx s idx else s
 
+/-! ### configuration glue: `MonitorConfig.names()` / `namespaces()` → how many informers exist
+
+`createInformersForNamespace` builds one resource informer per element of `names()` and
+`CreateInformers` one set of them per element of `namespaces()`; `Snapshot()` is the union of the
+informer caches, so "each object once" needs each requested name exactly once in these lists
+(model: `MonCfg.namesEff`, `MonCfg.namespaces` over `dedupNames`). -/
+
+def noRepeat : List Nat → Bool
+  | [] => true
+  | a :: t => !t.contains a && noRepeat t
+
+/-- spec of the list handed to the informer loops for a `matchNames` list: no entry twice, the same
+entries as requested (the order is free: the snapshot is sorted afterwards) -/
+def uniqExact (inp got : List Nat) : Bool :=
+  noRepeat got && inp.all (fun x => got.contains x) && got.all (fun x => inp.contains x)
+
 end ShellOp.Snapshot
